@@ -19,7 +19,9 @@ cd /verif
 git -C /repo apply $D/patch.diff || { echo "patch does not apply to /repo"; exit 2; }
 RES=""
 for c in $P $EXTRA; do
+  cp evidence/$c.json /tmp/ev_keep_$c.json 2>/dev/null
   ./check $c --tier quick > $OUT/check_$c.log 2>&1; rc=$?
+  cp /tmp/ev_keep_$c.json evidence/$c.json 2>/dev/null   # the committed evidence must describe the UNCHANGED tree
   v=$(grep -m1 VIOLATION $OUT/check_$c.log | cut -c1-300)
   echo "check $c rc=$rc $v"
   RES="$RES $c:rc=$rc"
@@ -27,6 +29,7 @@ for c in $P $EXTRA; do
 done
 git -C /repo checkout -q -- .
 git -C /repo status --short | head -3
+git -C /verif checkout -q -- lean/PauLieVerif/Generated/Tables.lean 2>/dev/null
 python3 - "$D/meta.json" "$OUT/meta.json" "$P" "$RC_CLEAN" "$RC_PATCHED" "$RC_TEST" "$RES" <<'PY'
 import json,sys
 src,dst,p,rc,rp,rt,res=sys.argv[1:8]
